@@ -29,18 +29,21 @@ LEVEL = 'model_checking'
 DISK = {
 	'c': 'def make() -> int:\n\treturn 1\n',
 	'b': 'from vm.c import make\n\nv = make()\n',
-	'a': 'from vm.b import v\n\nx = v\n\ndef twice(n: int) -> int:\n\treturn n * 2 + x\n',
+	# (a class and a function returning it: main holds a list in which the class is reached through the imported class itself and
+	# through the signature declared in a - two generations of a must not meet in one type)
+	'a': 'from vm.b import v\n\nx = v\n\ndef twice(n: int) -> int:\n\treturn n * 2 + x\n\nclass A:\n\tn: int\n\n\tdef __init__(self, n: int) -> None:\n\t\tself.n = n\n\ndef mka() -> A:\n\treturn A(3)\n',
 	# (the generic function stands at the same tree path as the only function of a and of c: anything remembered per tree path across modules shows)
 	# (... and a generic class of the module itself takes a class declared further down as its type argument: the stored
 	# symbol table has to list `Late` before the key that mentions it, whatever was registered under `Box` before)
-	'd': "from typing import Generic, TypeVar\n\nT = TypeVar('T')\n\nclass K:\n\tn: int\n\tdef __init__(self, n: int) -> None:\n\t\tself.n = n\n\ndef ident(v: T) -> T:\n\treturn v\n\nk = K(1)\n"
+	'd': "from typing import Generic, TypeVar\n\nT = TypeVar('T')\n\nclass K:\n\tn: int\n\tdef __init__(self, n: int) -> None:\n\t\tself.n = n\n\ndef ident(v: T) -> T:\n\treturn v\n\nk = K(1)\n\ndef mk() -> K:\n\treturn K(3)\n"
 		"\nclass Box(Generic[T]):\n\tvalue: T\n\n\tdef __init__(self, value: T) -> None:\n\t\tself.value = value\n"
 		"\nclass Scene:\n\tdef late(self) -> 'Box[Late]':\n\t\treturn Box(Late())\n\n\tdef size(self) -> int:\n\t\treturn self.late().value.size()\n"
 		"\nclass Late:\n\tdef size(self) -> int:\n\t\treturn 1\n",
 }
 MAIN = {
-	'ia': 'from vm.a import x, twice\n\nm = twice(x)\n',
-	'id': 'from vm.d import k, K\n\nm = k.n\nks = [K(2), k]\n',
+	'ia': 'from vm.a import x, twice, A, mka\n\nm = twice(x)\n\ndef run() -> None:\n\txs = [A(4), mka()]\n',
+	# (the list holds one class reached in two ways: through the imported class itself and through a signature declared in d)
+	'id': 'from vm.d import k, K, mk\n\nm = k.n\nks = [K(2), k]\n\ndef run() -> None:\n\txs = [K(4), mk()]\n',
 	'syn': 'def f(:\n\tpass\n',
 	'pre': 'from typing import Callable\n\nm = 1\n',
 	'walk': 'm = undefined_name\n',
@@ -154,6 +157,10 @@ class Session:
 				return {'res': 'ok'}
 			if name == 'unload':
 				env.modules.unload(real_name(op['m']))
+				return {'res': 'ok'}
+			if name == 'reload':
+				env.modules.unload(real_name(op['m']))
+				env.modules.load(real_name(op['m']))
 				return {'res': 'ok'}
 			if name == 'transpile':
 				module = env.modules.load(real_name(op['m']))
